@@ -328,8 +328,31 @@ func verifTokenOK(kind TokenKind, text string, hasNext bool, next byte) bool {
 // Rejected text must be rejected by the reference automaton; accepted text must
 // be accepted by it and every token must be a maximal-munch token of its kind
 // with only whitespace in between.
-func HarnessC04Lex(L int) {
-	in := verifSymString("src", L)
+func HarnessC04Lex(L int) { verifC04Lex(L, "") }
+
+// HarnessC04LexNum: longer inputs over the characters that matter to number
+// literals (and their neighbours).
+func HarnessC04LexNum(L int) { verifC04Lex(L, "019eE-.xaf ") }
+
+var verifC04Prefixes = []string{"1e-", "1e", "0x", "1.", "-", "1.5e-", "1.5E", "0", "'a'", "a.b", "a-", "<", "1e-0", "0x0", "1.0"}
+
+// HarnessC04LexAfter: L arbitrary bytes after a concrete beginning of a token.
+func HarnessC04LexAfter(prefix, L int) { verifC04LexIn(verifC04Prefixes[prefix], L, "") }
+
+func verifC04Lex(L int, alphabet string) { verifC04LexIn("", L, alphabet) }
+
+func verifC04LexIn(pre string, L int, alphabet string) {
+	in := pre + verifSymString("src", L)
+	L = len(in)
+	if alphabet != "" {
+		for i := 0; i < L; i++ {
+			ok := false
+			for k := 0; k < len(alphabet); k++ {
+				ok = verifOr(ok, in[i] == alphabet[k])
+			}
+			verifAssumeNote(ok, "C04 number alphabet: bytes are among 0 1 9 e E - . x a f space")
+		}
+	}
 	src := in + "}}"
 	specified := true
 	for i := 0; i < L; i++ {
